@@ -421,7 +421,7 @@ impl Profile {
                 p_parse_err: 0,
                 p_ff: 0,
                 p_gate: 85,
-                p_hook: 100,
+                p_hook: 65,
                 p_logs: 70,
                 limits: &[Some(2), Some(3), Some(64), None],
                 ..g
